@@ -81,7 +81,7 @@ func genC04(t *rapid.T) c04Case {
 	if rapid.Bool().Draw(t, "issueXFF") {
 		c.Issue.XFF = genChain(t, rapid.SampledFrom(append(c04Far, c04IPs...)).Draw(t, "issueFirst"))
 	}
-	c.Rel = rapid.SampledFrom([]string{"same", "same", "other-ip", "last-octet", "extra-element", "xff-vs-peer", "xff-dropped", "xff-added", "text-variant", "free", "same-proxies", "same-proxies"}).Draw(t, "rel")
+	c.Rel = rapid.SampledFrom([]string{"same", "same", "other-ip", "last-octet", "extra-element", "xff-vs-peer", "xff-dropped", "xff-added", "text-variant", "free", "same-proxies", "same-proxies", "lead-chars"}).Draw(t, "rel")
 	a := refAddr(c.Issue)
 	c.Use = c04Side{IP: c.Issue.IP, XFF: c.Issue.XFF}
 	switch c.Rel {
@@ -111,6 +111,13 @@ func genC04(t *rapid.T) c04Case {
 			c.Use.XFF = nil
 			c.Use.IP = a
 		}
+	case "lead-chars": // two different addresses that differ only in leading characters (f, :, 0)
+		pair := rapid.SampledFrom([][2]string{{"fd00:10::7", "d00:10::7"}, {"fe80::1", "e80::1"}, {"::1", "f::1"}, {"ff02::5", "2::5"},
+			{"f::f", "::f"}, {"10.1.2.3", "0.1.2.3"}, {"fd00::1", "::fd00:0:0:1"}}).Draw(t, "pair")
+		if rapid.Bool().Draw(t, "swap") {
+			pair[0], pair[1] = pair[1], pair[0]
+		}
+		c.Issue.XFF, c.Use.XFF = []string{pair[0]}, []string{pair[1]}
 	case "xff-dropped":
 		c.Use.XFF = nil
 	case "same-proxies": // another client behind the very same chain of proxies
